@@ -138,28 +138,98 @@ theorem checkpoints_stores (ws : List (Nat × Option Nat)) (s : MS) : checkpoint
 
 /-! ### The entry points -/
 
-/-- Stores followed by the INCREFs of what was stored (`_trait_set_property`, `trait_clone`): nothing is
-released, and every pointer written is backed afterwards. -/
-theorem safe_put (ws : List (Nat × Option Nat)) (s : MS) (h : s.Inv) :
-    checkpoints (stores ws ++ incs (ws.map (·.2))) s = [] ∧ (run (stores ws ++ incs (ws.map (·.2))) s).Inv := by
-  refine ⟨by simp [checkpoints_append, checkpoints_stores, checkpoints_incs], fun o => ?_⟩
-  rw [run_append]
-  have h1 := run_stores ws s
-  have h2 := run_incs (ws.map (·.2)) (run (stores ws) s)
-  have h3 := h o
-  have h4 := h1.2 o
-  simp only [MS.held] at h3 h4 ⊢
-  rw [h2.1, h2.2 o, h1.1]
-  omega
+theorem decs_append (a b : List (Option Nat)) : decs (a ++ b) = decs a ++ decs b := by
+  simp [decs, List.filterMap_append]
 
+theorem at_store_ne (s : MS) (i j : Nat) (v : Option Nat) (h : i ≠ j) : (ev s (.store i v)).at j = s.at j := by
+  simp [MS.at, ev, List.getD_eq_getElem?_getD, List.getElem?_set_ne h]
 
-theorem safe_copy (dst src : List Nat) (s : MS) (h : s.Inv) : Safe (compile s (.copy dst src)) s := by
-  have := safe_put (dst.zip (src.map s.at)) s h
-  exact ⟨by simp [compile, this.1], by simpa [compile] using this.2⟩
+/-- Stores into pairwise different slots: the pointers to `o` lose what those slots held BEFORE and gain what
+was stored. -/
+theorem run_stores_olds (ws : List (Nat × Option Nat)) (s : MS) (hnd : (ws.map (·.1)).Nodup) (o : Nat) :
+    ((run (stores ws) s).held o : Int) + ((ws.map (fun w => s.at w.1)).count (some o) : Int)
+      ≤ (s.held o : Int) + ((ws.map (·.2)).count (some o) : Int) := by
+  induction ws generalizing s with
+  | nil => simp [stores]
+  | cons w ws ih =>
+    obtain ⟨i, v⟩ := w
+    have e : stores ((i, v) :: ws) = .store i v :: stores ws := by simp [stores]
+    simp only [List.map_cons, List.nodup_cons] at hnd
+    have h1 := ih (ev s (.store i v)) hnd.2
+    have hsame : ws.map (fun w => (ev s (.store i v)).at w.1) = ws.map (fun w => s.at w.1) := by
+      apply List.map_congr_left
+      intro w hw
+      apply at_store_ne
+      intro hi
+      exact hnd.1 (hi ▸ List.mem_map_of_mem (f := (·.1)) hw)
+    rw [hsame] at h1
+    have h2 : ((s.ptr.set i v).count (some o) : Int) + (if s.at i = some o then 1 else 0)
+        ≤ (s.ptr.count (some o) : Int) + (if v = some o then 1 else 0) := count_set_le s.ptr i v o
+    rw [e, run_cons]
+    simp only [List.map_cons, List.count_cons]
+    simp only [MS.held, ev] at h1 ⊢
+    by_cases h3 : v = some o
+    · subst h3
+      by_cases h4 : s.at i = some o <;> simp [h4] at h2 ⊢ <;> omega
+    · by_cases h4 : s.at i = some o <;> simp [h3, h4] at h2 ⊢ <;> omega
 
-theorem safe_put' (ws : List (Nat × Option Nat)) (s : MS) (h : s.Inv) : Safe (compile s (.put ws)) s := by
-  have := safe_put ws s h
-  exact ⟨by simp [compile, this.1], by simpa [compile] using this.2⟩
+/-- Accounting of `putEvents` run from a state `t` that has the pointers of `s` (the state the old contents
+were read from): the count of `o` gains what was stored and loses what was remembered; the pointers to `o` plus
+what was remembered are at most the pointers before plus what was stored. -/
+theorem putEvents_account (ws : List (Nat × Option Nat)) (s t : MS) (hpt : t.ptr = s.ptr)
+    (hnd : (ws.map (·.1)).Nodup) (o : Nat) :
+    (run (putEvents s ws) t).rc o
+        = t.rc o + ((ws.map (·.2)).count (some o) : Int) - ((ws.map (fun w => s.at w.1)).count (some o) : Int) ∧
+    ((run (putEvents s ws) t).held o : Int) + ((ws.map (fun w => s.at w.1)).count (some o) : Int)
+        ≤ (t.held o : Int) + ((ws.map (·.2)).count (some o) : Int) := by
+  have h1 := run_stores ws t
+  have h2 := run_incs (ws.map (·.2)) (run (stores ws) t)
+  have h3 := run_decs (ws.map (fun w => s.at w.1)) (run (incs (ws.map (·.2))) (run (stores ws) t))
+  have h4 := run_stores_olds ws t hnd o
+  have hat : ws.map (fun w => t.at w.1) = ws.map (fun w => s.at w.1) := by
+    apply List.map_congr_left
+    intro w _
+    simp only [MS.at, hpt]
+  rw [hat] at h4
+  simp only [putEvents, run_append, MS.held] at h4 ⊢
+  rw [h3.1, h3.2 o, h2.1, h2.2 o, h1.1]
+  exact ⟨by omega, h4⟩
+
+/-- The remembered contents are released only after the new ones are stored and INCREF'ed
+(`_trait_set_property`, `trait_clone` since 86511b4). -/
+theorem safe_putEvents (ws : List (Nat × Option Nat)) (s : MS) (h : s.Inv) (hnd : (ws.map (·.1)).Nodup) :
+    Safe (putEvents s ws) s := by
+  have hfin : (run (putEvents s ws) s).Inv := by
+    intro o
+    have h1 := putEvents_account ws s s rfl hnd o
+    have h5 := h o
+    omega
+  refine ⟨?_, hfin⟩
+  simp only [putEvents, checkpoints_append, checkpoints_stores, checkpoints_incs, List.nil_append]
+  apply checkpoints_decs
+  simpa [putEvents, run_append] using hfin
+
+theorem zip_fst_nodup (dst : List Nat) (vs : List (Option Nat)) (h : dst.Nodup) :
+    ((dst.zip vs).map (·.1)).Nodup := by
+  induction dst generalizing vs with
+  | nil => simp
+  | cons d ds ih =>
+    cases vs with
+    | nil => simp
+    | cons v vs =>
+      simp only [List.nodup_cons] at h
+      simp only [List.zip_cons_cons, List.map_cons, List.nodup_cons]
+      refine ⟨fun hm => h.1 ?_, ih vs h.2⟩
+      obtain ⟨w, hw, rfl⟩ := List.mem_map.mp hm
+      exact (List.of_mem_zip hw).1
+
+theorem safe_copy (dst src : List Nat) (s : MS) (h : s.Inv) (hnd : dst.Nodup) :
+    Safe (compile s (.copy dst src)) s :=
+  safe_putEvents _ s h (zip_fst_nodup dst _ hnd)
+
+theorem safe_put (ws : List (Nat × Option Nat)) (s : MS) (h : s.Inv) (hnd : (ws.map (·.1)).Nodup) :
+    Safe (compile s (.put ws)) s :=
+  safe_putEvents ws s h hnd
 
 /-- `set_value`: INCREF new; store; XDECREF old. -/
 theorem safe_set (i new : Nat) (s : MS) (h : s.Inv) : Safe (compile s (.set i new)) s := by
@@ -263,29 +333,34 @@ theorem safe_read (is : List Nat) (s : MS) (h : s.Inv) : Safe (compile s (.read 
   simpa [compile, run_append] using hfin
 
 /-- `t.__setstate__(s.__getstate__())`. -/
-theorem safe_restate (dst src : List Nat) (s : MS) (h : s.Inv) : Safe (compile s (.restate dst src)) s := by
+theorem safe_restate (dst src : List Nat) (s : MS) (h : s.Inv) (hnd : dst.Nodup) :
+    Safe (compile s (.restate dst src)) s := by
+  have hnd' := zip_fst_nodup dst (src.map s.at) hnd
+  have h0 := run_incs (src.map s.at) s
   have hfin : (run (compile s (.restate dst src)) s).Inv := by
     intro o
-    have h1 := run_incs (src.map s.at) s
-    have h2 := run_stores (dst.zip (src.map s.at)) (run (incs (src.map s.at)) s)
-    have h3 := run_incs ((dst.zip (src.map s.at)).map (·.2))
-      (run (stores (dst.zip (src.map s.at))) (run (incs (src.map s.at)) s))
-    have h4 := run_decs (src.map s.at) (run (incs ((dst.zip (src.map s.at)).map (·.2)))
-      (run (stores (dst.zip (src.map s.at))) (run (incs (src.map s.at)) s)))
-    have h5 := h o
-    have h6 := h2.2 o
-    simp only [compile, run_append, MS.held] at h5 h6 ⊢
-    rw [h4.1, h4.2 o, h3.1, h3.2 o, h2.1, h1.2 o]
-    rw [h1.1] at h6
+    have h1 := putEvents_account (dst.zip (src.map s.at)) s (run (incs (src.map s.at)) s) h0.1 hnd' o
+    have h4 := run_decs (src.map s.at) (run (putEvents s (dst.zip (src.map s.at))) (run (incs (src.map s.at)) s))
+    have h6 := h o
+    have h7 := h0.2 o
+    simp only [compile, run_append, MS.held] at h1 h6 ⊢
+    rw [h4.1, h4.2 o]
+    rw [h0.1] at h1
     omega
   refine ⟨?_, hfin⟩
-  simp only [compile, checkpoints_append, checkpoints_incs, checkpoints_stores, List.nil_append,
-    List.append_nil]
-  apply checkpoints_decs
-  simpa [compile, run_append] using hfin
+  simp only [compile, putEvents, checkpoints_append, checkpoints_incs, checkpoints_stores, List.nil_append,
+    List.append_nil, run_append]
+  intro c hc
+  -- the two releasing runs are one: `decs (olds ++ vals)`
+  have hcp := checkpoints_decs ((dst.zip (src.map s.at)).map (fun w => s.at w.1) ++ src.map s.at)
+    (run (incs ((dst.zip (src.map s.at)).map (·.2)))
+      (run (stores (dst.zip (src.map s.at))) (run (incs (src.map s.at)) s)))
+    (by simpa [compile, putEvents, run_append, decs_append] using hfin)
+  apply hcp
+  simpa [decs_append, checkpoints_append] using hc
 
 /-- A field set again from its own getter. -/
-theorem safe_reset (i : Nat) (early : Bool) (s : MS) (h : s.Inv) : Safe (compile s (.reset i early)) s := by
+theorem safe_reset (i : Nat) (s : MS) (h : s.Inv) : Safe (compile s (.reset i)) s := by
   cases hold : s.at i with
   | none => exact ⟨by simp [compile, hold, checkpoints], by simpa [compile, hold] using h⟩
   | some p =>
@@ -299,84 +374,24 @@ theorem safe_reset (i : Nat) (early : Bool) (s : MS) (h : s.Inv) : Safe (compile
       by_cases h3 : p = o
       · subst h3; simp at h1; omega
       · simp [h3] at h1; omega
-    cases early with
-    | true =>
-      refine ⟨?_, ?_⟩
-      · intro c hc
-        simp only [compile, hold, if_true, checkpoints, List.mem_cons, List.not_mem_nil, or_false] at hc
-        rcases hc with hc | hc <;> subst hc <;> intro o <;> have k := key o <;> have h2 := h o <;>
-          simp only [ev, MS.held, bump] at h2 ⊢ <;>
-          (by_cases h3 : o = p
-           · subst h3; simp <;> omega
-           · simp [h3] <;> omega)
-      · intro o
-        have k := key o
-        simp only [compile, hold, if_true, run_cons, run_nil, ev, MS.held, bump]
-        by_cases h3 : o = p
-        · subst h3; simp <;> omega
-        · simp [h3] <;> omega
-    | false =>
-      refine ⟨?_, ?_⟩
-      · intro c hc
-        simp only [compile, hold, Bool.false_eq_true, if_false, checkpoints, List.mem_cons, List.not_mem_nil,
-          or_false] at hc
-        rcases hc with hc | hc <;> subst hc <;> intro o <;> have k := key o <;>
-          simp only [ev, MS.held, bump] <;>
-          (by_cases h3 : o = p
-           · subst h3; simp <;> omega
-           · simp [h3] <;> omega)
-      · intro o
-        have k := key o
-        simp only [compile, hold, Bool.false_eq_true, if_false, run_cons, run_nil, ev, MS.held, bump]
-        by_cases h3 : o = p
-        · subst h3; simp <;> omega
-        · simp [h3] <;> omega
-
-/-- `_trait_set_validate` releases the old validator while the field still points to it: safe only when there
-is nothing to release, when the new validator IS the old one, or when someone else keeps the old one alive. -/
-theorem safe_setEarly (i new : Nat) (s : MS) (h : s.Inv)
-    (hx : s.at i = none ∨ s.at i = some new ∨ ∃ p, s.at i = some p ∧ (s.held p : Int) < s.rc p) :
-    Safe (compile s (.setEarly i new)) s := by
-  have hset := safe_set i new s h
-  have hrun : run (compile s (.setEarly i new)) s = run (compile s (.set i new)) s := by
-    cases hold : s.at i with
-    | none => simp [compile, hold, decs]
-    | some p =>
-      simp only [compile, hold, decs, List.filterMap_cons, List.filterMap_nil, Option.map_some,
-        List.cons_append, List.nil_append, run_cons, run_nil, ev]
-  refine ⟨?_, by rw [hrun]; exact hset.2⟩
-  cases hold : s.at i with
-  | none => simp [compile, hold, decs, checkpoints]
-  | some p =>
-    intro c hc
-    simp only [compile, hold, decs, List.filterMap_cons, List.filterMap_nil, Option.map_some,
-      List.cons_append, List.nil_append, checkpoints, List.mem_singleton] at hc
-    subst hc
-    intro o
-    have h2 := h o
-    simp only [ev, MS.held, bump] at h2 ⊢
-    rcases hx with hx | hx | ⟨q, hq, hlt⟩
-    · rw [hold] at hx; cases hx
-    · rw [hold] at hx
-      have : p = new := by injection hx
-      subst this
+    refine ⟨?_, ?_⟩
+    · intro c hc
+      simp only [compile, hold, checkpoints, List.mem_cons, List.not_mem_nil, or_false] at hc
+      rcases hc with hc | hc <;> subst hc <;> intro o <;> have k := key o <;>
+        simp only [ev, MS.held, bump] <;>
+        (by_cases h3 : o = p
+         · subst h3; simp <;> omega
+         · simp [h3] <;> omega)
+    · intro o
+      have k := key o
+      simp only [compile, hold, run_cons, run_nil, ev, MS.held, bump]
       by_cases h3 : o = p
       · subst h3; simp <;> omega
       · simp [h3] <;> omega
-    · rw [hold] at hq
-      have : p = q := by injection hq
-      subst this
-      simp only [MS.held] at hlt
-      by_cases h3 : o = p
-      · subst h3
-        by_cases h4 : o = new
-        · subst h4; simp <;> omega
-        · simp [h4] <;> omega
-      · by_cases h4 : o = new
-        · subst h4; simp [h3] <;> omega
-        · simp [h3, h4] <;> omega
 
-/-- The state of the counterexample: one slot pointing to object 1, which has that one reference. -/
+/-- Why the order matters: a trait that owns the only reference to object 1 in its slot; releasing it BEFORE
+storing the new value (`_trait_set_validate` before d96fc77) leaves, at the moment the finalizer of 1 runs, a
+slot that points to an object without a reference. -/
 def soleValidator : MS := { ptr := [some 1], rc := fun o => if o = 1 then 1 else 0 }
 
 theorem soleValidator_inv : soleValidator.Inv := by
@@ -386,11 +401,163 @@ theorem soleValidator_inv : soleValidator.Inv := by
   · have h' : ¬ (1 : Nat) = o := fun e => h e.symm
     simp [soleValidator, MS.held, h, h']
 
-theorem setEarly_unsafe : ¬ Safe (compile soleValidator (.setEarly 0 2)) soleValidator := by
+theorem release_before_store_unsafe :
+    ¬ Safe [.incref 2, .decref 1, .store 0 (some 2)] soleValidator := by
   intro hs
-  have := hs.1 (ev (ev soleValidator (.incref 2)) (.decref 1)) (by
-    simp [compile, soleValidator, MS.at, decs, checkpoints])
+  have := hs.1 (ev (ev soleValidator (.incref 2)) (.decref 1)) (by simp [checkpoints])
   have h1 := this 1
   simp [ev, bump, soleValidator, MS.held] at h1
+
+/-! ### Neutrality: no call changes the references no slot accounts for -/
+
+theorem count_set_eq (l : List (Option Nat)) (i : Nat) (v : Option Nat) (o : Nat) (h : i < l.length) :
+    ((l.set i v).count (some o) : Int) + (if l.getD i none = some o then 1 else 0)
+      = (l.count (some o) : Int) + (if v = some o then 1 else 0) := by
+  have hget : l.getD i none = l[i] := by simp [List.getD, h]
+  rw [List.count_set h, hget]
+  by_cases h1 : l[i] = some o
+  · have hpos : 0 < l.count (some o) := List.count_pos_iff.mpr (h1 ▸ List.getElem_mem h)
+    by_cases h2 : v = some o <;> simp [h1, h2] <;> omega
+  · by_cases h2 : v = some o <;> simp [h1, h2]
+
+theorem run_stores_len (ws : List (Nat × Option Nat)) (s : MS) : (run (stores ws) s).ptr.length = s.ptr.length := by
+  induction ws generalizing s with
+  | nil => simp [stores]
+  | cons w ws ih =>
+    have e : stores (w :: ws) = .store w.1 w.2 :: stores ws := by simp [stores]
+    rw [e, run_cons, ih]; simp [ev]
+
+theorem run_stores_olds_eq (ws : List (Nat × Option Nat)) (s : MS) (hnd : (ws.map (·.1)).Nodup)
+    (hr : ∀ w ∈ ws, w.1 < s.ptr.length) (o : Nat) :
+    ((run (stores ws) s).held o : Int) + ((ws.map (fun w => s.at w.1)).count (some o) : Int)
+      = (s.held o : Int) + ((ws.map (·.2)).count (some o) : Int) := by
+  induction ws generalizing s with
+  | nil => simp [stores]
+  | cons w ws ih =>
+    obtain ⟨i, v⟩ := w
+    have e : stores ((i, v) :: ws) = .store i v :: stores ws := by simp [stores]
+    simp only [List.map_cons, List.nodup_cons] at hnd
+    have hr' : ∀ w ∈ ws, w.1 < (ev s (.store i v)).ptr.length := by
+      intro w hw; simpa [ev] using hr w (List.mem_cons_of_mem _ hw)
+    have h1 := ih (ev s (.store i v)) hnd.2 hr'
+    have hsame : ws.map (fun w => (ev s (.store i v)).at w.1) = ws.map (fun w => s.at w.1) := by
+      apply List.map_congr_left
+      intro w hw
+      apply at_store_ne
+      intro hi
+      exact hnd.1 (hi ▸ List.mem_map_of_mem (f := (·.1)) hw)
+    rw [hsame] at h1
+    have h2 : ((s.ptr.set i v).count (some o) : Int) + (if s.at i = some o then 1 else 0)
+        = (s.ptr.count (some o) : Int) + (if v = some o then 1 else 0) :=
+      count_set_eq s.ptr i v o (hr (i, v) List.mem_cons_self)
+    rw [e, run_cons]
+    simp only [List.map_cons, List.count_cons]
+    simp only [MS.held, ev] at h1 ⊢
+    by_cases h3 : v = some o
+    · subst h3
+      by_cases h4 : s.at i = some o <;> simp [h4] at h2 ⊢ <;> omega
+    · by_cases h4 : s.at i = some o <;> simp [h3, h4] at h2 ⊢ <;> omega
+
+theorem putEvents_neutral (ws : List (Nat × Option Nat)) (s t : MS) (hpt : t.ptr = s.ptr)
+    (hnd : (ws.map (·.1)).Nodup) (hr : ∀ w ∈ ws, w.1 < s.ptr.length) (o : Nat) :
+    (run (putEvents s ws) t).slack o = t.slack o := by
+  have h1 := run_stores ws t
+  have h2 := run_incs (ws.map (·.2)) (run (stores ws) t)
+  have h3 := run_decs (ws.map (fun w => s.at w.1)) (run (incs (ws.map (·.2))) (run (stores ws) t))
+  have h4 := run_stores_olds_eq ws t hnd (by rw [hpt]; exact hr) o
+  have hat : ws.map (fun w => t.at w.1) = ws.map (fun w => s.at w.1) := by
+    apply List.map_congr_left
+    intro w _
+    simp only [MS.at, hpt]
+  rw [hat] at h4
+  simp only [MS.slack, putEvents, run_append, MS.held] at h4 ⊢
+  rw [h3.1, h3.2 o, h2.1, h2.2 o, h1.1]
+  omega
+
+theorem neutral_set (i new : Nat) (s : MS) (hr : i < s.ptr.length) (o : Nat) :
+    (run (compile s (.set i new)) s).slack o = s.slack o := by
+  have h1 : ((s.ptr.set i (some new)).count (some o) : Int) + (if s.at i = some o then 1 else 0)
+      = (s.ptr.count (some o) : Int) + (if some new = some o then 1 else 0) :=
+    count_set_eq s.ptr i (some new) o hr
+  cases hold : s.at i with
+  | none =>
+    simp only [compile, hold, decs, List.filterMap_cons, List.filterMap_nil, Option.map_none,
+      List.append_nil, run_cons, run_nil, ev, MS.held, bump, MS.slack]
+    by_cases h3 : new = o
+    · subst h3; simp [hold] at h1 ⊢; omega
+    · have h3' : ¬ o = new := fun e => h3 e.symm
+      simp [hold, h3, h3'] at h1 ⊢; omega
+  | some p =>
+    simp only [compile, hold, decs, List.filterMap_cons, List.filterMap_nil, Option.map_some,
+      List.cons_append, List.nil_append, run_cons, run_nil, ev, MS.held, bump, MS.slack]
+    by_cases h3 : new = o
+    · subst h3
+      by_cases h4 : p = new
+      · subst h4; simp [hold] at h1 ⊢; omega
+      · have h4' : ¬ new = p := fun e => h4 e.symm
+        simp [hold, h4, h4'] at h1 ⊢; omega
+    · have h3' : ¬ o = new := fun e => h3 e.symm
+      by_cases h4 : p = o
+      · subst h4; simp [hold, h3, h3'] at h1 ⊢; omega
+      · have h4' : ¬ o = p := fun e => h4 e.symm
+        simp [hold, h3, h3', h4, h4'] at h1 ⊢; omega
+
+theorem neutral_clear (i : Nat) (s : MS) (hr : i < s.ptr.length) (o : Nat) :
+    (run (compile s (.clear i)) s).slack o = s.slack o := by
+  have h1 : ((s.ptr.set i none).count (some o) : Int) + (if s.at i = some o then 1 else 0)
+      = (s.ptr.count (some o) : Int) + (if (none : Option Nat) = some o then 1 else 0) :=
+    count_set_eq s.ptr i none o hr
+  cases hold : s.at i with
+  | none =>
+    simp only [compile, hold, decs, List.filterMap_cons, List.filterMap_nil, Option.map_none,
+      List.append_nil, run_cons, run_nil, ev, MS.held, MS.slack]
+    simp [hold] at h1 ⊢; omega
+  | some p =>
+    simp only [compile, hold, decs, List.filterMap_cons, List.filterMap_nil, Option.map_some,
+      List.cons_append, List.nil_append, run_cons, run_nil, ev, MS.held, bump, MS.slack]
+    by_cases h4 : p = o
+    · subst h4; simp [hold] at h1 ⊢; omega
+    · have h4' : ¬ o = p := fun e => h4 e.symm
+      simp [hold, h4, h4'] at h1 ⊢; omega
+
+theorem neutral_read (is : List Nat) (s : MS) (o : Nat) :
+    (run (compile s (.read is)) s).slack o = s.slack o := by
+  have h1 := run_incs (is.map s.at) s
+  have h2 := run_decs (is.map s.at) (run (incs (is.map s.at)) s)
+  simp only [compile, run_append, MS.held, MS.slack]
+  rw [h2.1, h2.2 o, h1.1, h1.2 o]
+  omega
+
+theorem neutral_restate (dst src : List Nat) (s : MS) (hnd : dst.Nodup) (hr : ∀ i ∈ dst, i < s.ptr.length)
+    (o : Nat) : (run (compile s (.restate dst src)) s).slack o = s.slack o := by
+  have hnd' := zip_fst_nodup dst (src.map s.at) hnd
+  have hr' : ∀ w ∈ dst.zip (src.map s.at), w.1 < s.ptr.length := fun w hw => hr _ (List.of_mem_zip hw).1
+  have h0 := run_incs (src.map s.at) s
+  have h1 := putEvents_neutral (dst.zip (src.map s.at)) s (run (incs (src.map s.at)) s) h0.1 hnd' hr' o
+  have h4 := run_decs (src.map s.at) (run (putEvents s (dst.zip (src.map s.at))) (run (incs (src.map s.at)) s))
+  have h7 := h0.2 o
+  simp only [compile, run_append, MS.held, MS.slack] at h1 ⊢
+  rw [h4.1, h4.2 o]
+  rw [h0.1] at h1
+  omega
+
+theorem neutral_reset (i : Nat) (s : MS) (o : Nat) :
+    (run (compile s (.reset i)) s).slack o = s.slack o := by
+  cases hold : s.at i with
+  | none => simp [compile, hold]
+  | some p =>
+    have hr : i < s.ptr.length := by
+      apply Decidable.byContradiction
+      intro hn
+      have : s.at i = none := by simp [MS.at, List.getD, Nat.le_of_not_lt hn]
+      rw [hold] at this; cases this
+    have h1 : ((s.ptr.set i (some p)).count (some o) : Int) + (if s.at i = some o then 1 else 0)
+        = (s.ptr.count (some o) : Int) + (if some p = some o then 1 else 0) :=
+      count_set_eq s.ptr i (some p) o hr
+    simp only [compile, hold, run_cons, run_nil, ev, MS.held, bump, MS.slack]
+    by_cases h3 : p = o
+    · subst h3; simp [hold] at h1 ⊢; omega
+    · have h3' : ¬ o = p := fun e => h3 e.symm
+      simp [hold, h3, h3'] at h1 ⊢; omega
 
 end TraitsVerif.Lemmas.Raw
